@@ -327,6 +327,11 @@ func demangleSingleFunction(fn *profile.Function, options []demangle.Option) {
 			}
 		}
 	}
+	if name == "" {
+		// The name consisted only of the groups removed above (e.g.
+		// "<lambda>"); never replace a name by an empty one.
+		return
+	}
 	fn.Name = name
 }
 
